@@ -208,6 +208,11 @@ def _run(ck, P, cfg):
             elif el is not None and a.is_inside(el):
                 branch = el
         mine = [l for l in loops if branch is not None and l.is_inside(branch)]
+        if not mine:
+            # one loop shared by both directions, after the branches
+            inside_any = lambda l: any(l.is_inside(th) or (el is not None and l.is_inside(el)) for (ifs, cond, th, el) in _branch_subtrees(f))
+            after = [l for l in loops if not inside_any(l) and l.line >= a.line]
+            mine = after
         if len(mine) != 1:
             ck.inconclusive("C17.6", inst, a.where, "expected one spin loop next to the arrival RMW, found %d" % len(mine), cfg)
             continue
@@ -233,6 +238,16 @@ def _run(ck, P, cfg):
                     l, r = X.strip(core.children[0]), X.strip(core.children[1])
                     if l.k == "DeclRefExpr" and l.did == dst.did and _is_thread_count(f, r):
                         good = "continues while %s %s thread count" % (dst.name, core.op)
+        if not good and kind == "var" and core is not None and core.k == "BinaryOperator" and core.op == "!=" and not neg and branch is not None:
+            # `while(r != target)` with the target set next to the arrival RMW
+            l, r = X.strip(core.children[0]), X.strip(core.children[1])
+            if l.k == "DeclRefExpr" and l.did == dst.did and r.k == "DeclRefExpr" and r.d.get("sc") == "local":
+                sets = [x for x in f.walk() if x.k == "BinaryOperator" and x.op == "=" and X.strip(x.children[0]).k == "DeclRefExpr" and X.strip(x.children[0]).did == r.did]
+                here = [x for x in sets if x.is_inside(branch)]
+                if len(here) == 1 and all(any(x.is_inside(b) for x in [y]) for y in sets for b in [branch] if y in here):
+                    tgt = X.strip(here[0].children[1])
+                    if (d == "down" and X.is_zero(tgt)) or (d == "up" and _is_thread_count(f, tgt)):
+                        good = "continues while %s != %s, which this branch sets to %s" % (dst.name, r.name, X.show(tgt))
         if good:
             n_ok += 1
             ck.holds("C17.6", inst, lp.where, "reloads with %s each iteration; %s" % (loads[0].aop.replace("__c11_atomic_", "atomic_"), good), cfg)
@@ -241,8 +256,55 @@ def _run(ck, P, cfg):
         elif core is not None and d == "up" and core.k == "BinaryOperator" and X.const_int(core.children[1]) is not None:
             ck.violated("C17.6", inst, lp.where, "an up-count spin loop exits at the constant %s instead of the thread count" % X.show(core.children[1]), cfg)
         else:
-            ck.inconclusive("C17.6", inst, lp.where, "spin loop exit condition not recognised: %s" % (X.show(condn) if condn is not None else "?"), cfg)
+            cex = _refute_spin(f, condn, dst if kind == "var" else None, d) if condn is not None else None
+            if cex:
+                ck.violated("C17.6", inst, lp.where, "with %d threads a thread spinning after counting %s leaves the loop `while(%s)` when the counter reads %d, %s"
+                            % (cex[0], d, X.show(condn), cex[1], "before all threads have arrived" if cex[2] == "early" else "and never leaves it at %d" % cex[3]), cfg)
+            else:
+                ck.inconclusive("C17.6", inst, lp.where, "spin loop exit condition not recognised: %s" % (X.show(condn) if condn is not None else "?"), cfg)
     ck.expect("C17.4", len(rmws), 2, "arrival RMWs")
+
+
+def _refute_spin(f, cond, dst, d):
+    """Search small thread counts for a counter value at which the spin loop's continue-condition is wrong: the loop must be
+    left exactly at the extreme of its direction.  Only a definite counterexample is reported: (threads, value, kind, extreme)."""
+    if dst is None:
+        return None
+    tc_keys = set()
+    locs = {}
+    for x in cond.walk():
+        if x.k == "MemberExpr" and x.name == "n_threads":
+            tc_keys.add(X.show(x))
+        if x.k == "DeclRefExpr" and x.d.get("sc") == "local" and x.did != dst.did:
+            r = Q.resolve_local(f, x)
+            if r is None or (r.k == "DeclRefExpr" and r.did == x.did):
+                return None
+            locs[x.name] = r
+            for y in r.walk():
+                if y.k == "MemberExpr" and y.name == "n_threads":
+                    tc_keys.add(X.show(y))
+    if not tc_keys:
+        return None
+    for n in range(1, 65):
+        env = {k: n for k in tc_keys}
+        for name, r in locs.items():
+            v = ceval.ev(r, env)
+            if v is None:
+                return None
+            env[name] = v
+        extreme = n if d == "up" else 0
+        values = range(1, n + 1) if d == "up" else range(0, n)
+        for r in values:
+            env[dst.name] = r
+            v = ceval.ev(cond, env)
+            if v is None:
+                return None
+            leaves = not v
+            if leaves and r != extreme:
+                return (n, r, "early", extreme)
+            if not leaves and r == extreme:
+                return (n, r, "stuck", extreme)
+    return None
 
 
 def _is_thread_count(f, n):
